@@ -412,6 +412,9 @@ def gen_ut(rng):
             ops.append(["assign", v, ["**", ["var", rng.choice(nums)], ["num", 2]]])
             nums.append(v)
     ops.append(["assign", "<state>y", ["+", ["var", "<state>y"], ["*", ["var", "<dt>"], ["var", "kfirst"]]]])
+    if not two and rng.random() < 0.3:
+        # the user's state is a matrix (2x2 or 3x2) in this run: a user type says nothing about the shape either
+        ops.insert(0, ["matrix-state", rng.choice([[2, 2], [3, 2]])])
     if rng.random() < 0.4:
         # the user's state vector holds complex numbers in this run (a user type says nothing about that)
         ops.insert(0, ["complex-state"])
@@ -428,6 +431,11 @@ def check_ut(ops, rec):
     if cstate:
         ops = ops[1:]
         rec.count("usertype_programs_with_complex_state")
+    mshape = None
+    if ops and ops[0][0] == "matrix-state":
+        mshape = ops[0][1]
+        ops = ops[1:]
+        rec.count("usertype_programs_with_matrix_state")
     two = ["two-types"] in ops
     if two:
         ops = [op for op in ops if op != ["two-types"]]
@@ -454,6 +462,8 @@ def check_ut(ops, rec):
         return tagged(0.5 * np.asarray(w) + t + np.asarray(y)[0], "wt")
     script = {"t0": 0.5, "dt0": 0.25, "state": {}, "initial": "main"}
     y0 = [1.0 + 0.5j, -2.0, 0.5j] if cstate else [1.0, -2.0, 0.5]
+    if mshape is not None:
+        y0 = (np.arange(mshape[0] * mshape[1]).reshape(mshape) * (0.5 + (0.25j if cstate else 0)) - 1.0).tolist()
     st0 = {"<t>": 0.5, "<dt>": 0.25, "<state>y": tagged(y0, "vt")}
     if two:
         st0["<state>w"] = tagged([0.5 + 1j, 1.0] if cstate else [0.5, 1.0], "wt")
@@ -482,6 +492,8 @@ def arg_grid():
         ("nan-array", np.array([1.0, float("nan")]), Array(True)),
         ("user-vector", tagged([1.0, -2.0, 0.5], "vt"), UserType("vt")),
         ("complex-user-vector", tagged([1j, 2.0, -1 + 1j], "vt"), UserType("vt")),
+        ("user-matrix-2x2", tagged([[1.0, -2.0], [0.5, 3.0]], "vt"), UserType("vt")),
+        ("user-matrix-3x2", tagged([[1.0, -2.0], [0.5, 3.0], [0.25, 4.0]], "vt"), UserType("vt")),
     ]
 
 
